@@ -343,17 +343,17 @@ Proof.
   inversion H; subst. eapply IH. exact E2.
 Qed.
 
-(* the event list of an enumeration ends with a complete pass over the final bus *)
-Lemma enum_last_pass : forall p fuel t pend evs tf, enum p fuel t pend = Some (evs, tf) ->
-  exists pre last pend', evs = pre ++ last /\ bfs fuel [(root_addr, tf)] pend' = Some (last, None).
+(* the passes of an enumeration end with a complete pass over the final bus *)
+Lemma enum_last_pass : forall p fuel t pend passes tf, enum p fuel t pend = Some (passes, tf) ->
+  exists pre last pend', passes = pre ++ [last] /\ bfs fuel [(root_addr, tf)] pend' = Some (last, None).
 Proof.
-  induction p as [|p IH]; intros fuel t pend evs tf H; simpl in H; [discriminate|].
+  induction p as [|p IH]; intros fuel t pend passes tf H; simpl in H; [discriminate|].
   destruct (bfs fuel [(root_addr, t)] pend) as [[evs1 r]|] eqn:E; [|discriminate].
   destruct r as [[t' pend']|].
   - destruct (enum p fuel t' pend') as [[e2 tf2]|] eqn:E2; [|discriminate].
     inversion H; subst. destruct (IH _ _ _ _ _ E2) as [pre [last [pd [Hev Hb]]]].
-    exists (evs1 ++ pre), last, pd. split; [rewrite Hev, app_assoc; reflexivity|exact Hb].
-  - inversion H; subst. exists [], evs, pend. split; [reflexivity|exact E].
+    exists (evs1 :: pre), last, pd. split; [rewrite Hev; reflexivity|exact Hb].
+  - inversion H; subst. exists [], evs1, pend. split; [reflexivity|exact E].
 Qed.
 
 Lemma init_bs_uids : forall c, map s_uid (init_bs c) = map b_uid (c_boards c).
@@ -367,6 +367,18 @@ Qed.
 
 Lemma apply_evs_app : forall bs x y, apply_evs bs (x ++ y) = apply_evs (apply_evs bs x) y.
 Proof. intros. unfold apply_evs. apply fold_left_app. Qed.
+
+Lemma disconnect_all_uids : forall bs, map s_uid (disconnect_all bs) = map s_uid bs.
+Proof. intro bs. unfold disconnect_all. rewrite map_map. reflexivity. Qed.
+Lemma disconnect_all_conn : forall bs s, In s (disconnect_all bs) -> s_conn s = false.
+Proof. intros bs s H. unfold disconnect_all in H. apply in_map_iff in H. destruct H as [x [E _]]. subst s. reflexivity. Qed.
+Lemma apply_passes_app : forall bs x y, apply_passes bs (x ++ y) = apply_passes (apply_passes bs x) y.
+Proof. intros. unfold apply_passes. apply fold_left_app. Qed.
+Lemma apply_passes_uids : forall ps bs, map s_uid (apply_passes bs ps) = map s_uid bs.
+Proof.
+  induction ps as [|p r IH]; intro bs; [reflexivity|]. unfold apply_passes in *. simpl. rewrite IH.
+  rewrite apply_evs_uids. apply disconnect_all_uids.
+Qed.
 
 (* a complete pass over a well-formed bus: every board whose unique id is on the bus ends up connected at the address of
    a node with that unique id; every other board is left as it was *)
@@ -416,43 +428,36 @@ Proof.
   - eapply IH; eassumption.
 Qed.
 
-(* C15_enumerate: static bus *)
-Theorem enum_static : forall fuel c t evs tf,
-  wf_from root_addr t = true -> NoDup (map b_uid (c_boards c)) ->
-  enum 1 fuel t [] = Some (evs, tf) ->
-  tf = t /\
-  forall s, In s (apply_evs (init_bs c) evs) ->
-    (s_conn s = true <-> In (s_uid s) (map snd (nodes_from root_addr t))) /\
-    (s_conn s = true -> In (s_addr s, s_uid s) (nodes_from root_addr t)).
+(* C15_enumerate / C15_restart / the table after a system reset: whatever the board table was before and whatever happened
+   in aborted passes, after the enumeration a board is connected iff its unique id is on the final bus, and then at the
+   address of the node that carries it *)
+Theorem enum_correct : forall p fuel t pend passes tf bs0,
+  wf_from root_addr tf = true -> NoDup (map s_uid bs0) ->
+  enum p fuel t pend = Some (passes, tf) ->
+  forall s, In s (apply_passes bs0 passes) ->
+    (s_conn s = true <-> In (s_uid s) (map snd (nodes_from root_addr tf))) /\
+    (s_conn s = true -> In (s_addr s, s_uid s) (nodes_from root_addr tf)).
 Proof.
-  intros fuel c t evs tf Hwf Hnd H. simpl in H.
-  destruct (bfs fuel [(root_addr, t)] []) as [[evs1 r]|] eqn:E; [|discriminate].
-  pose proof (bfs_nil _ _ _ _ E). subst r. inversion H; subst. split; [reflexivity|].
-  intros s Hs.
-  assert (Hnd' : NoDup (map s_uid (init_bs c))) by (rewrite init_bs_uids; exact Hnd).
-  pose proof (pass_correct _ _ _ _ _ Hwf Hnd' E) as F.
+  intros p fuel t pend passes tf bs0 Hwf Hnd H s Hs.
+  destruct (enum_last_pass _ _ _ _ _ _ H) as [pre [last [pd [Hev Hb]]]]. subst passes.
+  rewrite apply_passes_app in Hs. unfold apply_passes at 1 in Hs. simpl in Hs.
+  set (X := apply_passes bs0 pre) in *.
+  assert (Hnd' : NoDup (map s_uid (disconnect_all X))).
+  { rewrite disconnect_all_uids. unfold X. rewrite apply_passes_uids. exact Hnd. }
+  pose proof (pass_correct _ _ _ _ _ Hwf Hnd' Hb) as F.
   destruct (Forall2_in_r _ _ _ F s Hs) as [s0 [Hs0 [Hu [Hin Hnin]]]].
-  pose proof (init_bs_disconnected _ _ Hs0) as Hd.
+  pose proof (disconnect_all_conn _ _ Hs0) as Hd.
   destruct (in_dec (list_eq_dec N.eq_dec) (s_uid s0) (map snd (nodes_from root_addr tf))) as [Y|Nn].
   - destruct (Hin Y) as [Hc Ha]. split; [split; [intros _; rewrite Hu; exact Y|intros _; exact Hc]|intros _; exact Ha].
-  - rewrite (Hnin Nn). split; [split; [rewrite Hd; discriminate|intro X; contradiction]|rewrite Hd; discriminate].
+  - rewrite (Hnin Nn). split; [split; [rewrite Hd; discriminate|intro Z; contradiction]|rewrite Hd; discriminate].
 Qed.
 
-(* C15_restart: whatever happened in aborted passes, the boards on the final bus are connected at their final address *)
-Theorem enum_final : forall p fuel c t pend evs tf,
-  wf_from root_addr tf = true -> NoDup (map b_uid (c_boards c)) ->
-  enum p fuel t pend = Some (evs, tf) ->
-  forall s, In s (apply_evs (init_bs c) evs) ->
-    In (s_uid s) (map snd (nodes_from root_addr tf)) ->
-    s_conn s = true /\ In (s_addr s, s_uid s) (nodes_from root_addr tf).
+(* static bus: one pass, the bus is unchanged *)
+Lemma enum_static_tree : forall fuel t passes tf, enum 1 fuel t [] = Some (passes, tf) -> tf = t /\ exists evs, passes = [evs].
 Proof.
-  intros p fuel c t pend evs tf Hwf Hnd H s Hs Hin.
-  destruct (enum_last_pass _ _ _ _ _ _ H) as [pre [last [pd [Hev Hb]]]]. subst evs.
-  rewrite apply_evs_app in Hs.
-  assert (Hnd' : NoDup (map s_uid (apply_evs (init_bs c) pre))) by (rewrite apply_evs_uids, init_bs_uids; exact Hnd).
-  pose proof (pass_correct _ _ _ _ _ Hwf Hnd' Hb) as F.
-  destruct (Forall2_in_r _ _ _ F s Hs) as [s0 [Hs0 [Hu [Hi _]]]].
-  rewrite Hu in Hin. apply Hi in Hin. exact Hin.
+  intros fuel t passes tf H. simpl in H.
+  destruct (bfs fuel [(root_addr, t)] []) as [[evs1 r]|] eqn:E; [|discriminate].
+  pose proof (bfs_nil _ _ _ _ E). subst r. inversion H; subst. split; [reflexivity|]. exists evs1. reflexivity.
 Qed.
 
 (* ------------------------------------------------------------------ node new / node lost *)
@@ -528,4 +533,444 @@ Proof.
   destruct (notice_step bs e) as [bs1 m1] eqn:E1. destruct (notice_run bs1 r) as [bs2 m2] eqn:E2.
   simpl. specialize (IH bs1). rewrite E2 in IH. simpl in IH. rewrite IH.
   pose proof (notice_ack bs e) as A. rewrite E1 in A. simpl in A. rewrite A. destruct e; reflexivity.
+Qed.
+
+(* ------------------------------------------------------------------ addressing of commands *)
+Definition addr_of (m : msg) : addr3 := fst (fst m).
+Definition type_of (m : msg) : N := snd (fst m).
+(* the message goes to the current address of a connected board *)
+Definition to_conn (bs : list bst) (m : msg) : Prop := exists s, In s bs /\ s_conn s = true /\ addr_of m = s_addr s.
+
+Lemma find_acc_sent : forall id asp s l ms, find_acc id asp s l = Sent ms ->
+  s_conn s = true /\ forall m, In m ms -> addr_of m = s_addr s /\ type_of m = MSG_ACCESSORY_SET.
+Proof.
+  induction l as [|x r IH]; intros ms H; simpl in H; [discriminate|].
+  destruct (a_id x =? id); [|apply IH; exact H].
+  destruct (s_conn s) eqn:Ec; [|discriminate].
+  destruct (lookup asp (a_aspects x)) as [v|]; [|discriminate].
+  inversion H; subst. split; [reflexivity|]. intros m Hm. unfold accessory_set in Hm.
+  destruct ((127 <? a_num x) || (127 <? v)); [contradiction|]. destruct Hm as [Hm|[]]. subst m. split; reflexivity.
+Qed.
+Lemma find_dacc_sent : forall id asp s l ms, find_dacc id asp s l = Sent ms ->
+  s_conn s = true /\ forall m, In m ms -> addr_of m = s_addr s /\ type_of m = MSG_CS_ACCESSORY.
+Proof.
+  induction l as [|x r IH]; intros ms H; simpl in H; [discriminate|].
+  destruct (d_id x =? id); [|apply IH; exact H].
+  destruct (s_conn s) eqn:Ec; [|discriminate].
+  destruct (lookup asp (d_aspects x)) as [pvs|]; [|discriminate].
+  inversion H; subst. split; [reflexivity|]. intros m Hm. apply in_map_iff in Hm. destruct Hm as [pv [E _]]. subst m. split; reflexivity.
+Qed.
+Lemma find_per_sent : forall id asp s l ms, find_per id asp s l = Sent ms ->
+  s_conn s = true /\ forall m, In m ms -> addr_of m = s_addr s /\ type_of m = MSG_LC_OUTPUT.
+Proof.
+  induction l as [|x r IH]; intros ms H; simpl in H; [discriminate|].
+  destruct (p_id x =? id); [|apply IH; exact H].
+  destruct (s_conn s) eqn:Ec; [|discriminate].
+  destruct (lookup asp (p_aspects x)) as [v|]; [|discriminate].
+  inversion H; subst. split; [reflexivity|]. intros m [Hm|[]]. subst m. split; reflexivity.
+Qed.
+
+Lemma hl_accessory_sent : forall sel seld bb id asp ms, hl_accessory sel seld bb id asp = Sent ms ->
+  exists b s, In (b, s) bb /\ s_conn s = true /\
+    forall m, In m ms -> addr_of m = s_addr s /\ (type_of m = MSG_ACCESSORY_SET \/ type_of m = MSG_CS_ACCESSORY).
+Proof.
+  induction bb as [|[b s] r IH]; intros id asp ms H; simpl in H; [discriminate|].
+  destruct (find_acc id asp s (sel b)) as [| |ms1] eqn:E1.
+  - destruct (find_dacc id asp s (seld b)) as [| |ms2] eqn:E2.
+    + destruct (IH _ _ _ H) as [b' [s' [Hin R]]]. exists b', s'. split; [right; exact Hin|exact R].
+    + discriminate.
+    + inversion H; subst. destruct (find_dacc_sent _ _ _ _ _ E2) as [Hc Hm]. exists b, s. split; [left; reflexivity|].
+      split; [exact Hc|]. intros m X. destruct (Hm m X). split; [assumption|right; assumption].
+  - discriminate.
+  - inversion H; subst. destruct (find_acc_sent _ _ _ _ _ E1) as [Hc Hm]. exists b, s. split; [left; reflexivity|].
+    split; [exact Hc|]. intros m X. destruct (Hm m X). split; [assumption|left; assumption].
+Qed.
+
+Lemma hl_periph_sent : forall bb id asp ms, hl_periph bb id asp = Sent ms ->
+  exists b s, In (b, s) bb /\ s_conn s = true /\ forall m, In m ms -> addr_of m = s_addr s /\ type_of m = MSG_LC_OUTPUT.
+Proof.
+  induction bb as [|[b s] r IH]; intros id asp ms H; simpl in H; [discriminate|].
+  destruct (find_per id asp s (b_periphs b)) as [| |ms1] eqn:E1.
+  - destruct (IH _ _ _ H) as [b' [s' [Hin R]]]. exists b', s'. split; [right; exact Hin|exact R].
+  - discriminate.
+  - inversion H; subst. destruct (find_per_sent _ _ _ _ _ E1) as [Hc Hm]. exists b, s. split; [left; reflexivity|]. split; assumption.
+Qed.
+
+Lemma cs_drive_msgs : forall a t s fmt act sp fb ms s', cs_drive a t s fmt act sp fb = (ms, s') ->
+  forall m, In m ms -> addr_of m = a /\ type_of m = MSG_CS_DRIVE /\
+                       exists f1 f2 f3 f4, snd m = [t_addrl t; t_addrh t; fmt; act; sp; f1; f2; f3; f4].
+Proof.
+  intros a t s fmt act sp fb ms s' H m Hm. unfold cs_drive in H.
+  destruct ((fmt =? 1) || (3 <? fmt) || (63 <? act) || (31 <? nth 0 fb 0)); inversion H; subst; [contradiction|].
+  destruct Hm as [Hm|[]]. subst m. split; [reflexivity|]. split; [reflexivity|]. simpl. eauto.
+Qed.
+
+Lemma hl_train_periph_msgs : forall t s b pid st ms s', hl_train_periph t s b pid st = (ms, s') ->
+  forall m, In m ms -> s_conn b = true /\ is_dcc (s_uid b) = true /\ addr_of m = s_addr b /\ type_of m = MSG_CS_DRIVE.
+Proof.
+  intros t s b pid st ms s' H m Hm. unfold hl_train_periph in H.
+  destruct (s_conn b && is_dcc (s_uid b)) eqn:E; simpl in H; [|inversion H; subst; contradiction].
+  apply andb_true_iff in E. destruct E as [E1 E2].
+  destruct (lookup pid (t_periphs t)) as [bit|]; [|inversion H; subst; contradiction].
+  destruct (if bit <? 5 then (2, 0%nat, 0, 4) else if bit <? 12 then (4, 1%nat, 8, 11) else if bit <? 16 then (8, 1%nat, 12, 15)
+            else if bit <? 24 then (16, 2%nat, 16, 23) else (32, 3%nat, 24, 31)) as [[[act idx] lo] hi].
+  destruct (cs_drive_msgs _ _ _ _ _ _ _ _ _ H m Hm) as [A [B _]]. auto.
+Qed.
+
+Lemma hl_train_speed0_msgs : forall t s b ms s', hl_train_speed0 t s b = (ms, s') ->
+  forall m, In m ms -> s_conn b = true /\ is_dcc (s_uid b) = true /\ addr_of m = s_addr b /\ type_of m = MSG_CS_DRIVE.
+Proof.
+  intros t s b ms s' H m Hm. unfold hl_train_speed0 in H.
+  destruct (s_conn b) eqn:E1; simpl in H; [|inversion H; subst; contradiction].
+  destruct (is_dcc (s_uid b)) eqn:E2; simpl in H; [|inversion H; subst; contradiction].
+  destruct (cs_drive_msgs _ _ _ _ _ _ _ _ _ H m Hm) as [A [B _]]. auto.
+Qed.
+
+Lemma track_state_all_msgs : forall bs st m, In m (track_state_all bs st) <->
+  exists s, In s bs /\ is_dcc (s_uid s) = true /\ s_conn s = true /\ m = (s_addr s, MSG_CS_SET_STATE, [st]).
+Proof.
+  intros bs st m. unfold track_state_all. rewrite in_flat_map. split.
+  - intros [s [Hs Hm]]. destruct (is_dcc (s_uid s) && s_conn s) eqn:E; [|contradiction].
+    apply andb_true_iff in E. destruct E. destruct Hm as [Hm|[]]. exists s. auto.
+  - intros [s [Hs [E1 [E2 Hm]]]]. exists s. split; [exact Hs|]. rewrite E1, E2. simpl. left. symmetry. exact Hm.
+Qed.
+
+(* ------------------------------------------------------------------ start-up transcript *)
+Lemma feature_msgs_spec : forall bb m, In m (feature_msgs bb) <->
+  exists b s k v, In (b, s) bb /\ s_conn s = true /\ In (k, v) (b_features b) /\ m = (s_addr s, MSG_FEATURE_SET, [k; v]).
+Proof.
+  intros bb m. unfold feature_msgs. rewrite in_flat_map. split.
+  - intros [[b s] [Hin Hm]]. destruct (s_conn s) eqn:E; [|contradiction].
+    apply in_map_iff in Hm. destruct Hm as [[k v] [Em Hf]]. exists b, s, k, v. simpl in Em. auto.
+  - intros [b [s [k [v [Hin [Hc [Hf Hm]]]]]]]. exists (b, s). split; [exact Hin|]. rewrite Hc.
+    apply in_map_iff. exists (k, v). split; [symmetry; exact Hm|exact Hf].
+Qed.
+
+Lemma occupancy_msgs_to_conn : forall bb m, In m (occupancy_msgs bb) ->
+  exists b s, In (b, s) bb /\ s_conn s = true /\ is_dcc (s_uid s) = true /\ addr_of m = s_addr s /\
+              (type_of m = MSG_BM_GET_RANGE \/ type_of m = MSG_BM_ADDR_GET_RANGE).
+Proof.
+  intros bb m H. unfold occupancy_msgs in H. apply in_flat_map in H. destruct H as [[b s] [Hin Hm]].
+  destruct (s_conn s && is_dcc (s_uid s)) eqn:E; [|contradiction]. apply andb_true_iff in E. destruct E as [E1 E2].
+  exists b, s. split; [exact Hin|]. split; [exact E1|]. split; [exact E2|].
+  destruct Hm as [Hm|[Hm|[]]]; subst m; (split; [reflexivity|]); [left|right]; reflexivity.
+Qed.
+
+Lemma reset_one_train_msgs : forall bs t s ms s', reset_one_train bs t s = (ms, s') ->
+  forall m, In m ms -> to_conn bs m /\ type_of m = MSG_CS_DRIVE /\
+                       exists fmt, snd m = [t_addrl t; t_addrh t; fmt; 0; 0; 0; 0; 0; 0].
+Proof.
+  intros bs t s ms s'. unfold reset_one_train.
+  assert (G : forall l acc, (forall x, In x l -> In x bs) ->
+            (forall m, In m (fst acc) -> to_conn bs m /\ type_of m = MSG_CS_DRIVE /\ exists fmt, snd m = [t_addrl t; t_addrh t; fmt; 0; 0; 0; 0; 0; 0]) ->
+            forall m, In m (fst (fold_left (fun acc b => if s_conn b && is_dcc (s_uid b)
+                          then let '(m, s1) := cs_drive (s_addr b) t (snd acc) (dcc_format (t_steps t)) 0 0 [0;0;0;0] in (fst acc ++ m, s1)
+                          else acc) l acc)) ->
+              to_conn bs m /\ type_of m = MSG_CS_DRIVE /\ exists fmt, snd m = [t_addrl t; t_addrh t; fmt; 0; 0; 0; 0; 0; 0]).
+  { induction l as [|b r IH]; intros acc Hsub Hacc m Hm; [apply Hacc; exact Hm|].
+    simpl in Hm. eapply IH; [intros x Hx; apply Hsub; right; exact Hx| |exact Hm].
+    destruct (s_conn b && is_dcc (s_uid b)) eqn:E; [|exact Hacc].
+    apply andb_true_iff in E. destruct E as [E1 _].
+    destruct (cs_drive (s_addr b) t (snd acc) (dcc_format (t_steps t)) 0 0 [0;0;0;0]) as [m1 s1] eqn:Ed.
+    simpl. intros m' Hm'. apply in_app_iff in Hm'. destruct Hm' as [Hm'|Hm']; [apply Hacc; exact Hm'|].
+    destruct (cs_drive_msgs _ _ _ _ _ _ _ _ _ Ed m' Hm') as [A [B [f1 [f2 [f3 [f4 C]]]]]].
+    split; [exists b; split; [apply Hsub; left; reflexivity|split; [exact E1|exact A]]|]. split; [exact B|].
+    unfold cs_drive in Ed. destruct ((dcc_format (t_steps t) =? 1) || (3 <? dcc_format (t_steps t)) || (63 <? 0) || (31 <? nth 0 [0;0;0;0] 0));
+      inversion Ed; subst; [contradiction|]. destruct Hm' as [Hm'|[]]. subst m'. simpl. eauto. }
+  intros H m Hm. specialize (G bs ([], s) (fun x Hx => Hx)). rewrite H in G. simpl in G. apply G; [intros m' []|exact Hm].
+Qed.
+
+Lemma reset_train_params_msgs : forall bs ts ss ms ss', reset_train_params bs ts ss = (ms, ss') ->
+  forall m, In m ms -> to_conn bs m /\ type_of m = MSG_CS_DRIVE /\
+                       exists t fmt, In t ts /\ snd m = [t_addrl t; t_addrh t; fmt; 0; 0; 0; 0; 0; 0].
+Proof.
+  induction ts as [|t tr IH]; intros ss ms ss' H m Hm; simpl in H.
+  - inversion H; subst. contradiction.
+  - destruct ss as [|s sr]; [inversion H; subst; contradiction|].
+    destruct (reset_one_train bs t s) as [m1 s1] eqn:E1. destruct (reset_train_params bs tr sr) as [m2 sr2] eqn:E2.
+    inversion H; subst. apply in_app_iff in Hm. destruct Hm as [Hm|Hm].
+    + destruct (reset_one_train_msgs _ _ _ _ _ E1 m Hm) as [A [B [fmt C]]]. split; [exact A|]. split; [exact B|]. exists t, fmt. split; [left; reflexivity|exact C].
+    + destruct (IH _ _ _ E2 m Hm) as [A [B [t' [fmt [Ht C]]]]]. split; [exact A|]. split; [exact B|]. exists t', fmt. split; [right; exact Ht|exact C].
+Qed.
+
+Lemma init_train_one_msgs : forall bs t pid v s ms s', init_train_one bs t pid v s = (ms, s') ->
+  forall m, In m ms -> to_conn bs m /\ type_of m = MSG_CS_DRIVE.
+Proof.
+  intros bs t pid v s ms s'. unfold init_train_one.
+  assert (G : forall l acc, (forall x, In x l -> In x bs) ->
+            (forall m, In m (fst acc) -> to_conn bs m /\ type_of m = MSG_CS_DRIVE) ->
+            forall m, In m (fst (fold_left (fun acc b => if is_dcc (s_uid b)
+                          then let '(m1, s1) := hl_train_periph t (snd acc) b pid v in
+                               let '(m2, s2) := hl_train_speed0 t s1 b in (fst acc ++ m1 ++ m2, s2)
+                          else acc) l acc)) -> to_conn bs m /\ type_of m = MSG_CS_DRIVE).
+  { induction l as [|b r IH]; intros acc Hsub Hacc m Hm; [apply Hacc; exact Hm|].
+    simpl in Hm. eapply IH; [intros x Hx; apply Hsub; right; exact Hx| |exact Hm].
+    destruct (is_dcc (s_uid b)); [|exact Hacc].
+    destruct (hl_train_periph t (snd acc) b pid v) as [m1 s1] eqn:E1. destruct (hl_train_speed0 t s1 b) as [m2 s2] eqn:E2.
+    simpl. intros m' Hm'. apply in_app_iff in Hm'. destruct Hm' as [Hm'|Hm']; [apply Hacc; exact Hm'|].
+    apply in_app_iff in Hm'. destruct Hm' as [Hm'|Hm'].
+    - destruct (hl_train_periph_msgs _ _ _ _ _ _ _ E1 m' Hm') as [A [_ [C D]]].
+      split; [exists b; split; [apply Hsub; left; reflexivity|split; assumption]|exact D].
+    - destruct (hl_train_speed0_msgs _ _ _ _ _ E2 m' Hm') as [A [_ [C D]]].
+      split; [exists b; split; [apply Hsub; left; reflexivity|split; assumption]|exact D]. }
+  intros H m Hm. specialize (G bs ([], s) (fun x Hx => Hx)). rewrite H in G. simpl in G. apply G; [intros m' []|exact Hm].
+Qed.
+
+Lemma init_trains_msgs : forall bs ts iv ss ms ss', init_trains bs ts ss iv = (ms, ss') ->
+  forall m, In m ms -> to_conn bs m /\ type_of m = MSG_CS_DRIVE.
+Proof.
+  induction iv as [|[[ti pid] v] r IH]; intros ss ms ss' H m Hm; simpl in H.
+  - inversion H; subst. contradiction.
+  - destruct (nth_error ts ti) as [t|]; [|eapply IH; eassumption].
+    destruct (nth_error ss ti) as [s|]; [|eapply IH; eassumption].
+    destruct (init_train_one bs t pid v s) as [m1 s1] eqn:E1.
+    destruct (init_trains bs ts (set_nth ti ss s1) r) as [m2 ss2] eqn:E2.
+    inversion H; subst. apply in_app_iff in Hm. destruct Hm as [Hm|Hm].
+    + eapply init_train_one_msgs; eassumption.
+    + eapply IH; eassumption.
+Qed.
+
+Lemma in_combine_conn : forall (bds : list board) (bs : list bst) (b : board) (s : bst), In (b, s) (combine bds bs) -> In s bs.
+Proof. intros. eapply in_combine_r. eassumption. Qed.
+
+Lemma init_accessory_msgs_to_conn : forall c bs m, In m (init_accessory_msgs c bs) ->
+  to_conn bs m /\ (type_of m = MSG_ACCESSORY_SET \/ type_of m = MSG_CS_ACCESSORY \/ type_of m = MSG_LC_OUTPUT).
+Proof.
+  intros c bs m H. unfold init_accessory_msgs in H.
+  apply in_app_iff in H. destruct H as [H|H]; [|apply in_app_iff in H; destruct H as [H|H]];
+    apply in_flat_map in H; destruct H as [[id asp] [_ Hm]]; simpl in Hm.
+  - unfold hl_point in Hm. destruct (hl_accessory b_points b_points_dcc (combine (c_boards c) bs) id asp) as [| |ms] eqn:E; try contradiction.
+    destruct (hl_accessory_sent _ _ _ _ _ _ E) as [b [s [Hin [Hc Hms]]]]. destruct (Hms m Hm) as [A B].
+    split; [exists s; split; [eapply in_combine_conn; exact Hin|split; assumption]|tauto].
+  - unfold hl_signal in Hm. destruct (hl_accessory b_signals b_signals_dcc (combine (c_boards c) bs) id asp) as [| |ms] eqn:E; try contradiction.
+    destruct (hl_accessory_sent _ _ _ _ _ _ E) as [b [s [Hin [Hc Hms]]]]. destruct (Hms m Hm) as [A B].
+    split; [exists s; split; [eapply in_combine_conn; exact Hin|split; assumption]|tauto].
+  - destruct (hl_periph (combine (c_boards c) bs) id asp) as [| |ms] eqn:E; try contradiction.
+    destruct (hl_periph_sent _ _ _ _ E) as [b [s [Hin [Hc Hms]]]]. destruct (Hms m Hm) as [A B].
+    split; [exists s; split; [eapply in_combine_conn; exact Hin|split; assumption]|tauto].
+Qed.
+
+Ltac type_neq H := let X := fresh in intro X; rewrite H in X; vm_compute in X; discriminate X.
+
+(* C20: shape of everything bidib_send_sys_reset sends after the enumeration *)
+Theorem after_enum_order : forall c bs ss, exists rm tm,
+  fst (after_enum c bs ss) =
+    [(root_addr, MSG_GET_PKT_CAPACITY, [])] ++ feature_msgs (combine (c_boards c) bs) ++ [(root_addr, MSG_SYS_ENABLE, [])] ++
+    rm ++ track_state_all bs BIDIB_CS_STATE_GO ++ occupancy_msgs (combine (c_boards c) bs) ++ init_accessory_msgs c bs ++ tm /\
+  (forall m, In m rm -> to_conn bs m /\ type_of m = MSG_CS_DRIVE) /\
+  (forall m, In m tm -> to_conn bs m /\ type_of m = MSG_CS_DRIVE).
+Proof.
+  intros c bs ss. unfold after_enum.
+  destruct (reset_train_params bs (c_trains c) ss) as [rm ss1] eqn:E1.
+  destruct (init_trains bs (c_trains c) ss1 (c_init_trains c)) as [tm ss2] eqn:E2.
+  exists rm, tm. split; [reflexivity|]. split.
+  - intros m Hm. destruct (reset_train_params_msgs _ _ _ _ _ E1 m Hm) as [A [B _]]. split; assumption.
+  - intros m Hm. eapply init_trains_msgs; eassumption.
+Qed.
+
+(* nothing after SYS_ENABLE is a feature setting, and everything after it goes to a connected board *)
+Theorem after_enable_silent : forall c bs rm tm m,
+  (forall x, In x rm -> to_conn bs x /\ type_of x = MSG_CS_DRIVE) ->
+  (forall x, In x tm -> to_conn bs x /\ type_of x = MSG_CS_DRIVE) ->
+  In m (rm ++ track_state_all bs BIDIB_CS_STATE_GO ++ occupancy_msgs (combine (c_boards c) bs) ++ init_accessory_msgs c bs ++ tm) ->
+  to_conn bs m /\ type_of m <> MSG_FEATURE_SET /\ type_of m <> MSG_SYS_ENABLE.
+Proof.
+  intros c bs rm tm m Hrm Htm H.
+  apply in_app_iff in H. destruct H as [H|H].
+  { destruct (Hrm m H) as [A B]. split; [exact A|]. split; type_neq B. }
+  apply in_app_iff in H. destruct H as [H|H].
+  { apply track_state_all_msgs in H. destruct H as [s [Hs [_ [Hc Hm]]]]. subst m.
+    split; [exists s; split; [exact Hs|split; [exact Hc|reflexivity]]|]. split; vm_compute; discriminate. }
+  apply in_app_iff in H. destruct H as [H|H].
+  { destruct (occupancy_msgs_to_conn _ _ H) as [b [s [Hin [Hc [_ [Ha Ht]]]]]].
+    split; [exists s; split; [eapply in_combine_conn; exact Hin|split; assumption]|].
+    destruct Ht as [Ht|Ht]; split; type_neq Ht. }
+  apply in_app_iff in H. destruct H as [H|H].
+  { destruct (init_accessory_msgs_to_conn _ _ _ H) as [A [B|[B|B]]]; (split; [exact A|]); split; type_neq B. }
+  { destruct (Htm m H) as [A B]. split; [exact A|]. split; type_neq B. }
+Qed.
+
+(* ------------------------------------------------------------------ witnesses of the four defect classes *)
+Definition wu0 : uid := [144; 0; 13; 0; 0; 0; 1].   (* interface + track output *)
+Definition wu1 : uid := [4; 0; 13; 0; 0; 0; 2].
+Definition wu2 : uid := [132; 0; 13; 0; 0; 0; 3].   (* interface class *)
+Definition wux : uid := [64; 0; 13; 0; 0; 0; 9].    (* not configured *)
+Definition wuh : uid := [128; 0; 13; 0; 0; 0; 10].  (* interface, not configured *)
+Definition wboard (u : uid) (f : list (N * N)) : board :=
+  {| b_uid := u; b_features := f; b_points := []; b_points_dcc := []; b_signals := []; b_signals_dcc := []; b_periphs := []; b_maxseg := 0 |}.
+Definition wcfg : cfg :=
+  {| c_boards := [wboard wu0 []; wboard wu1 [(1, 7)]; wboard wu2 []]; c_trains := [];
+     c_init_points := []; c_init_signals := []; c_init_periphs := []; c_init_trains := [] |}.
+
+(* an interface-class board on the third level: its own table row 0 overwrites the third address byte with 0 *)
+Definition w_deep : tree := T wu0 [(1, T wuh [(2, T wuh [(3, T wu2 [])])])].
+Lemma level3_witness :
+  exists ps, enum 1 10 w_deep [] = Some (ps, w_deep) /\
+    In ((1, 2, 3), wu2) (nodes_from root_addr w_deep) /\
+    In {| s_uid := wu2; s_conn := true; s_addr := (1, 2, 0) |} (apply_passes (init_bs wcfg) ps).
+Proof. eexists. split; [vm_compute; reflexivity|]. split; vm_compute; tauto. Qed.
+
+(* the notice that an interface which is not configured was lost leaves the boards beneath it connected *)
+Lemma lost_unknown_iface_witness :
+  let bs := [{| s_uid := wu1; s_conn := true; s_addr := (1, 2, 0) |}] in
+  fst (notice_step bs (NLost root_addr 5 1 wuh)) = bs /\ is_iface wuh = true /\ is_subnode (1, 0, 0) (1, 2, 0) = true.
+Proof. vm_compute. auto. Qed.
+
+(* a table change while the root interface transfers row 2 (board 1 was seen in the aborted pass and is gone afterwards),
+   and a later system reset against a bus from which board 1 has disappeared: both end with board 1 disconnected *)
+Definition w_tree0 : tree := T wu0 [(1, T wu1 []); (2, T wux [])].
+Definition w_tree1 : tree := T wu0 [(2, T wux [])].
+Lemma nv_restart :
+  exists ps, enum 2 10 w_tree0 [(root_addr, 2, w_tree1)] = Some (ps, w_tree1) /\ length ps = 2%nat /\
+    wf_from root_addr w_tree1 = true /\
+    map s_conn (apply_passes (init_bs wcfg) ps) = [true; false; false] /\
+    map s_conn (apply_passes (init_bs wcfg) (firstn 1 ps)) = [true; true; false].
+Proof. eexists. split; [vm_compute; reflexivity|]. repeat split; reflexivity. Qed.
+
+(* ------------------------------------------------------------------ non-vacuity *)
+Definition nv_tree : tree :=
+  T wuh [(3, T wu1 []); (5, T wu2 [(1, T wux []); (7, T wu0 [(9, T wux [])])])].
+Lemma nv_enum : exists ps, enum 1 20 nv_tree [] = Some (ps, nv_tree) /\ wf_from root_addr nv_tree = true /\
+  NoDup (map b_uid (c_boards wcfg)) /\
+  apply_passes (init_bs wcfg) ps =
+    [{| s_uid := wu0; s_conn := true; s_addr := (5, 7, 0) |}; {| s_uid := wu1; s_conn := true; s_addr := (3, 0, 0) |};
+     {| s_uid := wu2; s_conn := true; s_addr := (5, 0, 0) |}].
+Proof.
+  eexists. split; [vm_compute; reflexivity|]. split; [reflexivity|]. split; [|reflexivity].
+  repeat constructor; vm_compute; intuition discriminate.
+Qed.
+
+(* ------------------------------------------------------------------ further C20 lemmas *)
+Theorem after_enum_to_conn : forall c bs ss m, In m (fst (after_enum c bs ss)) ->
+  m = (root_addr, MSG_GET_PKT_CAPACITY, []) \/ m = (root_addr, MSG_SYS_ENABLE, []) \/ to_conn bs m.
+Proof.
+  intros c bs ss m H. destruct (after_enum_order c bs ss) as [rm [tm [E [Hrm Htm]]]]. rewrite E in H.
+  apply in_app_iff in H. destruct H as [[H|[]]|H]; [left; symmetry; exact H|].
+  apply in_app_iff in H. destruct H as [H|H].
+  { right. right. apply feature_msgs_spec in H. destruct H as [b [s [k [v [Hin [Hc [_ Hm]]]]]]]. subst m.
+    exists s. split; [eapply in_combine_conn; exact Hin|split; [exact Hc|reflexivity]]. }
+  apply in_app_iff in H. destruct H as [[H|[]]|H]; [right; left; symmetry; exact H|].
+  right. right. exact (proj1 (after_enable_silent c bs rm tm m Hrm Htm H)).
+Qed.
+
+Lemma init_accessory_def : forall c bs,
+  init_accessory_msgs c bs =
+  flat_map (fun ia => found_msgs (hl_point (combine (c_boards c) bs) (fst ia) (snd ia))) (c_init_points c) ++
+  flat_map (fun ia => found_msgs (hl_signal (combine (c_boards c) bs) (fst ia) (snd ia))) (c_init_signals c) ++
+  flat_map (fun ia => found_msgs (hl_periph (combine (c_boards c) bs) (fst ia) (snd ia))) (c_init_periphs c).
+Proof. reflexivity. Qed.
+
+Lemma startup_def : forall fuel c t pend,
+  startup fuel c t pend =
+  match sys_reset fuel c (init_bs c) t pend with
+  | None => None
+  | Some (m, bs, ss, tf) => Some (probe_msgs ++ m, bs, ss, tf)
+  end.
+Proof. reflexivity. Qed.
+
+Lemma upd_rows_idem : forall rows s, upd_rows rows (upd_rows rows s) = upd_rows rows s.
+Proof.
+  intros rows s. unfold upd_rows at 1. rewrite upd_rows_uid. unfold upd_rows.
+  destruct (last_addr rows (s_uid s)); reflexivity.
+Qed.
+
+Definition clr (s : bst) : bst := set_conn s false (s_addr s).
+Lemma disconnect_all_map : forall bs, disconnect_all bs = map clr bs.
+Proof. reflexivity. Qed.
+
+(* one complete pass applied twice is the same as applied once *)
+Lemma upd_clr_idem : forall rows s, upd_rows rows (clr (upd_rows rows (clr s))) = upd_rows rows (clr s).
+Proof.
+  intros rows s.
+  assert (U : s_uid (clr (upd_rows rows (clr s))) = s_uid s) by (unfold clr at 1; simpl; rewrite upd_rows_uid; reflexivity).
+  unfold upd_rows at 1. rewrite U.
+  assert (V : upd_rows rows (clr s) = match last_addr rows (s_uid s) with Some a => set_conn (clr s) true a | None => clr s end) by reflexivity.
+  destruct (last_addr rows (s_uid s)) eqn:E.
+  - rewrite V. unfold set_conn, clr. simpl. reflexivity.
+  - rewrite V. unfold set_conn, clr. simpl. reflexivity.
+Qed.
+Lemma pass_idem : forall evs bs, NoDup (map s_uid bs) ->
+  apply_evs (disconnect_all (apply_evs (disconnect_all bs) evs)) evs = apply_evs (disconnect_all bs) evs.
+Proof.
+  intros evs bs H.
+  assert (H1 : NoDup (map s_uid (disconnect_all bs))) by (rewrite disconnect_all_uids; exact H).
+  rewrite (apply_evs_elem evs (disconnect_all bs) H1).
+  assert (H2 : NoDup (map s_uid (disconnect_all (map (upd_rows (erows evs)) (disconnect_all bs))))).
+  { rewrite disconnect_all_uids, map_map. erewrite map_ext; [exact H1|]. intro s. apply upd_rows_uid. }
+  rewrite (apply_evs_elem evs _ H2).
+  rewrite !disconnect_all_map. rewrite !map_map. apply map_ext_in. intros s Hs.
+  try (apply in_map_iff in Hs; destruct Hs as [s' [Es _]]; subst s). apply upd_clr_idem.
+Qed.
+
+(* C20_every_reset: a further system reset against the same bus repeats the transcript and leaves the same state *)
+Theorem sys_reset_again : forall fuel c bs t m bs1 ss tf, NoDup (map s_uid bs) ->
+  sys_reset fuel c bs t [] = Some (m, bs1, ss, tf) ->
+  sys_reset fuel c bs1 tf [] = Some (m, bs1, ss, tf).
+Proof.
+  intros fuel c bs t m bs1 ss tf Hnd H. unfold sys_reset in *. simpl length in *.
+  destruct (enum 1 fuel t []) as [[ps tf']|] eqn:E; [|discriminate].
+  destruct (enum_static_tree _ _ _ _ E) as [Et [evs Ep]]. subst tf' ps.
+  assert (X : apply_passes (apply_passes bs [evs]) [evs] = apply_passes bs [evs]).
+  { unfold apply_passes. simpl. apply pass_idem. exact Hnd. }
+  remember (apply_passes bs [evs]) as B eqn:HB.
+  destruct (after_enum c B (init_ts c)) as [m1 ss1] eqn:Ea.
+  injection H as H1 H2 H3 H4. subst m bs1 ss tf. rewrite E. rewrite X, Ea. reflexivity.
+Qed.
+
+(* a complete start-up against a small bus, for non-vacuity *)
+Definition nv_cfg : cfg :=
+  {| c_boards := [ {| b_uid := wu0; b_features := [(1, 0); (4, 1)];
+                      b_points := [ {| a_id := 1; a_num := 2; a_aspects := [(10, 1); (11, 0)] |} ]; b_points_dcc := [];
+                      b_signals := []; b_signals_dcc := []; b_periphs := []; b_maxseg := 0 |};
+                   {| b_uid := wu1; b_features := [(16, 7)]; b_points := []; b_points_dcc := [];
+                      b_signals := [ {| a_id := 2; a_num := 16; a_aspects := [(12, 2)] |} ]; b_signals_dcc := [];
+                      b_periphs := [ {| p_id := 3; p_port0 := 35; p_port1 := 1; p_aspects := [(13, 1)] |} ]; b_maxseg := 0 |};
+                   wboard wu2 [(9, 9)] ];
+     c_trains := [ {| t_addrl := 35; t_addrh := 1; t_steps := 126; t_periphs := [(20, 4); (21, 0)] |} ];
+     c_init_points := [(1, 10)]; c_init_signals := [(2, 12)]; c_init_periphs := [(3, 13)]; c_init_trains := [(0%nat, 20, 1)] |}.
+Lemma nv_startup :
+  match startup 20 nv_cfg (T wu0 [(1, T wu1 [])]) [] with
+  | Some (ms, bs, _, _) =>
+      ms = probe_msgs ++
+           [(root_addr, MSG_SYS_RESET, []); (root_addr, MSG_NODETAB_GETALL, []); (root_addr, MSG_NODETAB_GETNEXT, []);
+            (root_addr, MSG_NODETAB_GETNEXT, []);
+            (root_addr, MSG_GET_PKT_CAPACITY, []);
+            (root_addr, MSG_FEATURE_SET, [1; 0]); (root_addr, MSG_FEATURE_SET, [4; 1]); ((1, 0, 0), MSG_FEATURE_SET, [16; 7]);
+            (root_addr, MSG_SYS_ENABLE, []);
+            (root_addr, MSG_CS_DRIVE, [35; 1; 3; 0; 0; 0; 0; 0; 0]);
+            (root_addr, MSG_CS_SET_STATE, [3]);
+            (root_addr, MSG_BM_GET_RANGE, [0; 8]); (root_addr, MSG_BM_ADDR_GET_RANGE, [0; 1]);
+            (root_addr, MSG_ACCESSORY_SET, [2; 1]); ((1, 0, 0), MSG_ACCESSORY_SET, [16; 2]); ((1, 0, 0), MSG_LC_OUTPUT, [35; 1; 1]);
+            (root_addr, MSG_CS_DRIVE, [35; 1; 3; 2; 0; 16; 0; 0; 0]); (root_addr, MSG_CS_DRIVE, [35; 1; 3; 1; 128; 0; 0; 0; 0])]
+      /\ map s_conn bs = [true; true; false]
+  | None => False
+  end.
+Proof. vm_compute. split; reflexivity. Qed.
+
+(* ------------------------------------------------------------------ corollaries for the repaired enumeration *)
+Theorem enum_static : forall fuel c t ps tf,
+  wf_from root_addr t = true -> NoDup (map b_uid (c_boards c)) ->
+  enum 1 fuel t [] = Some (ps, tf) ->
+  tf = t /\
+  forall s, In s (apply_passes (init_bs c) ps) ->
+    (s_conn s = true <-> In (s_uid s) (map snd (nodes_from root_addr t))) /\
+    (s_conn s = true -> In (s_addr s, s_uid s) (nodes_from root_addr t)).
+Proof.
+  intros fuel c t ps tf Hwf Hnd H. destruct (enum_static_tree _ _ _ _ H) as [Et _]. subst tf. split; [reflexivity|].
+  apply (enum_correct 1 fuel t [] ps t (init_bs c) Hwf); [rewrite init_bs_uids; exact Hnd|exact H].
+Qed.
+
+(* the board table after bidib_send_sys_reset, from any earlier table and with any table changes on the way *)
+Theorem sys_reset_table : forall fuel c bs t pend m bs1 ss tf,
+  wf_from root_addr tf = true -> NoDup (map s_uid bs) ->
+  sys_reset fuel c bs t pend = Some (m, bs1, ss, tf) ->
+  forall s, In s bs1 ->
+    (s_conn s = true <-> In (s_uid s) (map snd (nodes_from root_addr tf))) /\
+    (s_conn s = true -> In (s_addr s, s_uid s) (nodes_from root_addr tf)).
+Proof.
+  intros fuel c bs t pend m bs1 ss tf Hwf Hnd H. unfold sys_reset in H.
+  destruct (enum (S (length pend)) fuel t pend) as [[ps tf']|] eqn:E; [|discriminate].
+  remember (apply_passes bs ps) as B eqn:HB.
+  destruct (after_enum c B (init_ts c)) as [m1 ss1]. injection H as H1 H2 H3 H4. subst m bs1 ss tf'.
+  rewrite HB. exact (enum_correct _ _ _ _ _ _ bs Hwf Hnd E).
 Qed.
